@@ -20,7 +20,7 @@ def precedes(fn, A, B, **kw):
 
 
 def follows(fn, A, B, exit="ok", **kw):
-    return lambda F: FnCheck(F, fn, containing=A).follows(A, B, exit=exit, **kw)
+    return lambda F: FnCheck(F, fn, containing=(B if isinstance(A, Arm) else A)).follows(A, B, exit=exit, **kw)
 
 
 def never(fn, B, **kw):
